@@ -211,3 +211,26 @@ impl Forwarder {
         }
     }
 }
+
+/// Verification hook: the forwarder's client state machine on its own (what `Forwarder::new` creates and `Forwarder::run`
+/// calls for every payload), so that a harness can drive `ClientState::try_send` directly.
+#[cfg(metrics_verif)]
+pub(crate) struct VerifClient(ClientState);
+
+#[cfg(metrics_verif)]
+impl VerifClient {
+    /// The initial client state of `Forwarder::new`.
+    pub(crate) fn new(config: ForwarderConfiguration) -> Self {
+        VerifClient(ClientState::Disconnected(config))
+    }
+
+    /// `ClientState::try_send`.
+    pub(crate) fn try_send(&mut self, payload: &[u8]) -> io::Result<usize> {
+        self.0.try_send(payload)
+    }
+
+    /// Whether the client currently holds a socket (`ClientState::Ready`).
+    pub(crate) fn is_ready(&self) -> bool {
+        matches!(self.0, ClientState::Ready(..))
+    }
+}
